@@ -506,6 +506,41 @@ def _kind_round_trip(P, R, pars, cc, ci):
     R.floor("categories with a reader directive and a writer branch (B5b)", 3)
 
 
+def _independent_keys(P, R, comp):
+    R.rule("B10", "independent metadata is written independently: the presence tests of two different EBLIF.* keys are not arms of one "
+                  "if / elif chain (an element carrying both would lose the second on write)")
+    n = 0
+
+    def key_of(t):
+        if isinstance(t, ast.Compare) and len(t.ops) == 1 and isinstance(t.ops[0], ast.In) and isinstance(t.left, ast.Constant) \
+                and isinstance(t.left.value, str) and t.left.value.startswith("EBLIF."):
+            return t.left.value
+        return None
+    for f in (g for c in comp.classes.values() for g in c.all_funcs()):
+        for i_ in walk_local(f.node):
+            if not isinstance(i_, ast.If) or key_of(i_.test) is None:
+                continue
+            par = getattr(i_, "_parent", None)
+            if isinstance(par, ast.If) and len(par.orelse) == 1 and par.orelse[0] is i_ and key_of(par.test) is not None:
+                continue  # an inner link of a chain: judged from the head
+            n += 1
+            chain, cur = [key_of(i_.test)], i_
+            while len(cur.orelse) == 1 and isinstance(cur.orelse[0], ast.If) and key_of(cur.orelse[0].test) is not None:
+                cur = cur.orelse[0]
+                chain.append(key_of(cur.test))
+            # (the category dispatch of compose_instances tests keys of a dict it built itself, one category per instance; what matters here
+            # are tests on an element's own data)
+            on_element = "data" in norm(i_.test.comparators[0]) or norm(i_.test.comparators[0]) in ("instance", "definition", "self.current_model", "cable", "port")
+            if len(set(chain)) > 1 and on_element:
+                R.bad("B10", "%s|chained %s" % (f.key, ",".join(chain)), f.loc(i_),
+                      "%s tests %s in one if / elif chain: an element that carries %s is written with the first only, the rest is lost on write-then-read"
+                      % (f.qualname, " and ".join("`%s`" % k for k in chain), " and ".join(chain)))
+            else:
+                R.ok("B10", "%s: %s" % (f.qualname, chain[0]), f.loc(i_))
+    R.count("EBLIF.* presence tests in the writer (B10)", n)
+    R.floor("EBLIF.* presence tests in the writer (B10)", 3)
+
+
 def _open_actuals_stay_open(P, R, pars):
     R.rule("B9", "open actuals stay open: once the reader has recognised an actual as the `unconn` marker, no statement that joins the pin "
                  "to a net can run in the same iteration")
@@ -570,7 +605,7 @@ def _str_consts(node):
           "category the reader assigns has a branch in the writer's compose_instances (otherwise instances vanish on write); B4'' EBLIF.* keys "
           "stored by the reader minus keys read by the writer equals the reviewed table; B1'' every .model written is followed by .end on all "
           "paths; B6 the .conn wire merge iterates over a snapshot of the pin lists it empties; hand-maintained position counters advance once "
-          "per element; B7 a bus grown on demand to hold bit I is then read at bit I; B8 the (name, index) pair a bit of a bus is stored under comes from one parse of one token; B5b per category, the directive the writer emits under the flags it passes is the directive the reader turns into that category; B9 (CFG reachability within one iteration) once an actual is recognised as the `unconn` marker no statement that joins the pin to a net can run.")
+          "per element; B7 a bus grown on demand to hold bit I is then read at bit I; B8 the (name, index) pair a bit of a bus is stored under comes from one parse of one token; B5b per category, the directive the writer emits under the flags it passes is the directive the reader turns into that category; B9 (CFG reachability within one iteration) once an actual is recognised as the `unconn` marker no statement that joins the pin to a net can run; B10 the presence tests of two different EBLIF.* keys on an element's data are not arms of one if / elif chain.")
 def check_c18(ctx, R):
     P = ctx.P
     R.rule("B2''", "directive agreement")
@@ -637,6 +672,8 @@ def check_c18(ctx, R):
     _kind_round_trip(P, R, pars, cc, ci)
     # B9: an actual recognised as the open marker is joined to nothing
     _open_actuals_stay_open(P, R, pars)
+    # B10: independent metadata is written independently
+    _independent_keys(P, R, comp)
     # B4''
     stored = set()
     for n in ast.walk(pars.tree):
